@@ -335,7 +335,7 @@ func verifH_C08_untyped_header() {
 	verifReach("end")
 }
 
-//verif:harness id=C08 tier=quick,thorough witness=end bounds="response header names are case-insensitive: a required header declared as x-rate-limit / X-Rate-Limit / X-RATE-LIMIT, defined by schema (integer) or by content (application/json, integer) x response carrying it (under net/http's canonical key) with value 5 / x, or not at all: missing is rejected, present is accepted when the schema form accepts the value (by content only presence is checked)"
+//verif:harness id=C08 tier=quick,thorough witness=end bounds="response header names are case-insensitive: a required header declared as x-rate-limit / X-Rate-Limit / X-RATE-LIMIT, defined by schema (integer) or by content (application/json, integer) x response carrying it (under net/http's canonical key) with value 5 / x, or not at all: missing is rejected, present is accepted when its value satisfies the schema, in either form of definition (a header defined by application/json content is read as JSON text)"
 func verifH_C08_header_names() {
 	d := "d"
 	name := []string{"x-rate-limit", "X-Rate-Limit", "X-RATE-LIMIT"}[verifChoose("name", 3)]
@@ -360,7 +360,7 @@ func verifH_C08_header_names() {
 		hdr.Set("x-rate-limit", "x")
 	}
 	err := ValidateResponse(context.Background(), verifRespInput(op, "GET", 200, hdr, nil, &Options{}))
-	want := presence == 1 || (presence == 2 && byContent)
+	want := presence == 1 // x is not an integer, however the header is defined (a header defined by application/json content is read as JSON)
 	verifAssert((err == nil) == want, "C08 header names: a declared response header is found whatever the spelling of its name in the document")
 	verifReach("end")
 }
